@@ -487,6 +487,9 @@ func (it *interp) execInstr(s *state, f frameID, fn *ssa.Function, in ssa.Instru
 			return []lin.Ineq{lin.GE(i, lin.Const(0)), lin.LT(i, l)}
 		})
 		set(x, func(d *disjunct) rep {
+			if a, ok := it.listElemAddr(d, f, x); ok {
+				return rep{kind: kPtr, isnil: lin.Const(0), at: &a}
+			}
 			if a, ok := it.addrOf(d, f, x); ok {
 				return rep{kind: kPtr, isnil: lin.Const(0), at: &a}
 			}
